@@ -34,6 +34,15 @@ def cells(tier):
         out += make_cells(PID, 'exc', tier, thin=plain, extra={'untimed': pat}, suffix='untimed-' + ''.join(map(str, pat)))
     out += make_cells(PID, 'exc', tier, thin=some, extra={'blank_first': True}, suffix='blank-id-first')
     out += make_cells(PID, 'exc', tier, thin=plain, extra={'blank_first': True, 'untimed': [1]}, suffix='blank-id-first+untimed-1')
+    # classification: a roElementAction of any operation / shape, and an element of any name, never escape as
+    # KeyError / AttributeError (cells shared with C08)
+    from .p_c08 import cells as c08_cells
+    for c in c08_cells(tier):
+        if '/ea/' in c.cid or '/free-tag/' in c.cid or '/table/roElementAction/' in c.cid:
+            c.pid = PID
+            c.cid = c.cid.replace('C08/', 'C12/classify/')
+            c.params = dict(c.params, weak=True)     # C12 asks only for the exception type, not for the class
+            out.append(c)
     plain2 = lambda op, story_k, tk, sk, nk: story_k in (None, 'existing') and tk in (None, 'existing', 'unknown') and \
         (sk is None or sk in (['existing'], ['existing', 'existing'], ['existing', 'unknown'])) and (nk is None or nk == ['fresh'])
     out += make_cells(PID, 'exc', tier, N=3, thin=plain2, extra={'prehist': True}, suffix='after-roReplace')
